@@ -164,9 +164,13 @@ class StubCode:
 
 
 class StubNoise:
+    """var = 1: explicit free-form option (a nested dict that is a strict superset of the default's)."""
     id = 'StubNoise'
-    params = {'r_z': 1}
     label = 'noise'
+
+    def __init__(self, var=0):
+        self.var = var
+        self.params = {'r_z': 1, 'deformation_kwargs': {'deformation_axis': 'x'} if var else {}}
 
 
 class StubDecoder:
@@ -179,8 +183,8 @@ def scenario(mods, fs, fname, sims_spec, n_trials, save_frequency, counter):
     """Build a BatchSimulation for the given spec [(L, rate), ...] and run it to n_trials."""
     bsm, dsm = mods
     batch = bsm.BatchSimulation(fname, save_frequency=save_frequency, verbose=False)
-    for idx, (L, rate) in enumerate(sims_spec):
-        sim = dsm.DirectSimulation(StubCode(L), StubNoise(), StubDecoder(), rate, verbose=False,
+    for idx, (L, rate, var) in enumerate(sims_spec):
+        sim = dsm.DirectSimulation(StubCode(L), StubNoise(var), StubDecoder(), rate, verbose=False,
                                    compress=fname.endswith('.gz'))
         sim._tag = idx
         batch.append(sim)
@@ -188,7 +192,7 @@ def scenario(mods, fs, fname, sims_spec, n_trials, save_frequency, counter):
     def run_once(code, error_model, decoder, error_rate, rng=None):
         fs.hook('before-trial')
         counter[0] += 1
-        tid = [code.L, int(round(error_rate * 1000)), counter[0]]         # (which simulation, serial number)
+        tid = [code.L, int(round(error_rate * 1000)) + error_model.var, counter[0]]   # (which simulation, serial number)
         return {'error': None, 'syndrome': None, 'correction': None, 'effective_error': tid,
                 'success': True, 'codespace': True}
     dsm.run_once = run_once
@@ -243,8 +247,10 @@ def worker(cfg, tier='quick'):
                 bas.BaseSimulation.load_results_from_dict, dsm.DirectSimulation._run, ut.save_json, ut.load_json)
     saved = dict(ut_open=ut.__dict__.get('open'), ut_gzip=ut.gzip, ut_os=ut.os, bsm_os=bsm.os, bas_os=bas.os,
                  run_once=dsm.run_once, bsm_print=bsm.__dict__.get('print'), bas_print=bas.__dict__.get('print'))
-    spec1 = [(2, 0.1), (3, 0.1)]
-    spec2 = spec1 + ([(4, 0.1), (2, 0.2)] if grow else [])
+    # the first simulation carries an explicit noise option; the grown specification adds, among others, the
+    # same (code, rate) with the default option: nothing of the first may be adopted by it
+    spec1 = [(2, 0.1, 1), (3, 0.1, 0)]
+    spec2 = spec1 + ([(4, 0.1, 0), (2, 0.2, 0), (2, 0.1, 0)] if grow else [])
     eng = Engine(name=cfg, max_paths=20000)
     try:
         bsm.print = lambda *a, **k: None
@@ -383,16 +389,17 @@ def worker(cfg, tier='quick'):
             allids = [tuple(t) for _, _, tr, _, _ in v['final'] for t in tr]
             checks['no-trial-counted-twice'] = len(allids) == len(set(allids))
             checks['foreign-records-not-adopted'] = all(
-                t[0] == spec[tag][0] and t[1] == int(round(spec[tag][1] * 1000))
+                t[0] == spec[tag][0] and t[1] == int(round(spec[tag][1] * 1000)) + spec[tag][2]
                 for tag, _, tr, _, _ in v['final'] for t in tr)
             ok_prefix = True
             if v['last_saved']:
                 for rec in v['last_saved']:
                     L = rec['inputs']['code']['parameters']['L_x']
                     rate = rec['inputs']['error_rate']
+                    var = 1 if rec['inputs']['error_model']['parameters'].get('deformation_kwargs') else 0
                     saved_tr = [list(map(int, x)) for x in rec['results']['effective_error']]
                     for tag, _, tr, _, _ in v['final']:
-                        if spec[tag] == (L, rate):
+                        if spec[tag] == (L, rate, var):
                             if tr[:len(saved_tr)] != saved_tr:
                                 ok_prefix = False
             checks['last-completed-save-is-a-prefix'] = ok_prefix
@@ -424,8 +431,8 @@ def replay(path):
         import panqec.simulation._direct_simulation as dsm
         ext, grow = w['ext'], w['grow']
         fname = '/out/results' + ext
-        spec1 = [(2, 0.1), (3, 0.1)]
-        spec2 = spec1 + ([(4, 0.1), (2, 0.2)] if grow else [])
+        spec1 = [(2, 0.1, 1), (3, 0.1, 0)]
+        spec2 = spec1 + ([(4, 0.1, 0), (2, 0.2, 0), (2, 0.1, 0)] if grow else [])
         fs = FS()
         seen = [0]
         last = {}
@@ -490,7 +497,8 @@ def replay(path):
                                 print('saved', st, 'after restart', got)
                                 bad = True
             elif 'foreign' in oid:
-                bad = any(t[0] != s.code.L for s in b2 for t in s.results['effective_error'])
+                bad = any(t[0] != s.code.L or t[1] != int(round(s.error_rate * 1000)) + s.error_model.var
+                          for s in b2 for t in s.results['effective_error'])
             elif 'on-disk' in oid:
                 data = ut.load_json(fname) if fs.isfile(fname) else None
                 print('on disk after the completed run:', None if data is None else [r_['results']['n_runs'] for r_ in data])
